@@ -1174,7 +1174,9 @@ rci_t mzd_first_zero_row(mzd_t const *A);
 static inline word mzd_hash(mzd_t const *A) {
   word hash = 0;
   for (rci_t r = 0; r < A->nrows; ++r) {
-    hash ^= rotate_word(calculate_hash(mzd_row_const(A, r), A->width), r % m4ri_radix);
+    word const *row = mzd_row_const(A, r);
+    word const h    = calculate_hash(row, A->width - 1) ^ (row[A->width - 1] & A->high_bitmask);
+    hash ^= rotate_word(h, r % m4ri_radix);
   }
   return hash;
 }
